@@ -378,13 +378,14 @@ pub fn gen_source(rng: &mut Rng, p: &Profile, depth: u32) -> SourceSpec {
         via_insert: rng.chance(p.p_via_insert, 100),
         bad_fd,
         ready_at_insert: rng.chance(p.p_ready_at_insert, 100),
+        owns_adapter: matches!(p.name.as_str(), "C06" | "C08" | "C16") && rng.chance(1, 12),
     }
 }
 
 /// C01: a source whose event is already in the batch is removed by an earlier callback, its slot is
 /// reused k times within that callback and finally taken by a newcomer that has no cause of its own
 fn slot_reuse_scenario(rng: &mut Rng, p: &Profile) -> History {
-    let plain = |kind: Kind, ready: bool, prog: Vec<CbStep>| SourceSpec { kind, lifecycle: false, prog, fault: None, via_insert: false, bad_fd: None, ready_at_insert: ready };
+    let plain = |kind: Kind, ready: bool, prog: Vec<CbStep>| SourceSpec { kind, lifecycle: false, prog, fault: None, via_insert: false, bad_fd: None, ready_at_insert: ready, owns_adapter: false };
     let k = *rng.pick(&[1u16, 2, 3, 17, 255, 256, 257, 511, 512, 513]);
     let newcomer = match rng.below(3) {
         0 => Kind::Gen { fd: FdKind::Pipe, int: Int::Read, md: Md::Level },
@@ -420,7 +421,7 @@ fn many_ready_scenario(rng: &mut Rng, p: &Profile, n: usize) -> History {
     for i in 0..n {
         let md = *rng.pick(&[Md::Level, Md::Level, Md::Edge, Md::OneShot]);
         let kind = if i % 7 == 0 { Kind::Ping } else { Kind::Gen { fd: FdKind::Eventfd, int: Int::Read, md } };
-        steps.push(Step::Op(Op::Insert(Box::new(SourceSpec { kind, lifecycle: false, prog: vec![], fault: None, via_insert: true, bad_fd: None, ready_at_insert: true }))));
+        steps.push(Step::Op(Op::Insert(Box::new(SourceSpec { kind, lifecycle: false, prog: vec![], fault: None, via_insert: true, bad_fd: None, ready_at_insert: true, owns_adapter: false }))));
     }
     steps.push(Step::Dispatch(0));
     steps.push(Step::Dispatch(0));
@@ -487,7 +488,7 @@ pub fn gen_history(rng: &mut Rng, p: &Profile) -> History {
 ///  ping a source whose processing fails + dispatch}
 pub const C13_SYMBOLS: u64 = 10;
 pub fn c13_enumerated(mut idx: u64, len: usize) -> History {
-    let plain = |prog: Vec<CbStep>| SourceSpec { kind: Kind::Ping, lifecycle: false, prog, fault: None, via_insert: false, bad_fd: None, ready_at_insert: false };
+    let plain = |prog: Vec<CbStep>| SourceSpec { kind: Kind::Ping, lifecycle: false, prog, fault: None, via_insert: false, bad_fd: None, ready_at_insert: false, owns_adapter: false };
     let idle = |ops: Vec<Op>| Op::InsertIdle(Box::new(IdleSpec { ops }));
     let step = |ops: Vec<Op>, ret: Ret| CbStep { ops, ret, tact: TAct::ToInstant(Dl::Far), child_ret: Ret::Continue };
     let mut steps = vec![
